@@ -559,7 +559,8 @@ class __Integer(_pre.Pregex):
                     digit_pre = \
                         _asr.NotPrecededBy(
                             digit_pre,
-                            *[_cl.AnyButDigit() + '0' + (i - 2) * _cl.AnyDigit() for i in range(2, i+1)]
+                            *[_cl.AnyButDigit() + '0' + (i - 2) * _cl.AnyDigit() for i in range(2, i+1)],
+                            *[_asr.MatchAtStart('0' + (i - 2) * _cl.AnyDigit()) for i in range(2, i+1)]
                         )
                 
             p_start += d_start.replace(filler, '')
